@@ -55,6 +55,13 @@ class P(Process):
         sch = {'s': {'x_' + n: {'_default': 0},
                      'h_' + n: {'_default': 1}},
                'r': {'q_' + n: {'_default': 5}}}
+        if self.parameters['via'] == 'branch':
+            # leaves carry their own flags; the branch-level flag given through
+            # store_schema must override all of them
+            lf = self.parameters['leaf_flags']
+            sch['s']['x_' + n]['_emit'] = lf[0]
+            sch['s']['h_' + n]['_emit'] = lf[1]
+            sch['r']['q_' + n]['_emit'] = lf[2]
         if self.parameters['via'] == 'schema':
             f = self.parameters['flags']
             sch['s']['x_' + n]['_emit'] = f[('s', 'x_' + n)]
@@ -127,7 +134,8 @@ def run_engine(ctx, cfg, flags, es, ivs):
                          g=e.global_time if e is not None else 0,
                          nb=len(CTX['batches'])))
     sink = stubs.reset_sink(hook)
-    procs = {n: P({'name': n, 'via': cfg['via'], 'flags': flags})
+    procs = {n: P({'name': n, 'via': cfg['via'], 'flags': flags,
+                   'leaf_flags': CTX.get('leaf_flags')})
              for n in names}
     kwargs = {}
     if cfg['via'] == 'store_schema':
@@ -174,6 +182,8 @@ def body(ctx, cfg):
         fr = ctx.flag('fr')
         for p in var_paths:
             flags[p] = fs if p[0] == 's' else fr
+        lf = ctx.flag('lf')
+        CTX['leaf_flags'] = [lf, not lf, True]
         ctx.goal('branch-level flag')
     else:
         symbolic = [('s', 'x_p0'), ('r', 'q_p0'), ('s', 'w'),
